@@ -592,6 +592,39 @@ func writtenFacts(fd *ast.FuncDecl) string {
 	return "[" + strings.Join(quoteAll(out), ", ") + "]"
 }
 
+// callSeq lists, in source order, the method calls made on the receiver (out.X / in.X) and the
+// assignments to its counters, e.g. ["buffer.Reset", "written=0", "WriteByte", …].
+func callSeq(fd *ast.FuncDecl) string {
+	var out []string
+	ast.Inspect(fd.Body, func(n ast.Node) bool {
+		switch x := n.(type) {
+		case *ast.AssignStmt:
+			if len(x.Lhs) == 1 {
+				if sel, ok := x.Lhs[0].(*ast.SelectorExpr); ok && sel.Sel.Name == "written" {
+					if v, ok := intOf(x.Rhs[0], nil); ok && x.Tok == token.ASSIGN {
+						out = append(out, "written="+v)
+					}
+				}
+			}
+		case *ast.CallExpr:
+			if sel, ok := x.Fun.(*ast.SelectorExpr); ok {
+				switch r := sel.X.(type) {
+				case *ast.Ident:
+					if r.Name == "out" || r.Name == "in" {
+						out = append(out, sel.Sel.Name)
+					}
+				case *ast.SelectorExpr: // out.buffer.Reset()
+					if id, ok := r.X.(*ast.Ident); ok && (id.Name == "out" || id.Name == "in") {
+						out = append(out, r.Sel.Name+"."+sel.Sel.Name)
+					}
+				}
+			}
+		}
+		return true
+	})
+	return "[" + strings.Join(quoteAll(out), ", ") + "]"
+}
+
 func main() {
 	repo := flag.String("repo", "/repo", "")
 	outp := flag.String("out", "", "")
@@ -668,6 +701,21 @@ func main() {
 	}
 	sort.Strings(arr)
 	b.WriteString(strings.Join(arr, ",\n"))
+	b.WriteString("\n]\n\n")
+	fmt.Fprintf(&b, "/-- ReadDecimalLen: (length, payload width) per case, and the default arm's width -/\ndef decimalLenR : List (Nat × Nat) × Nat := %s\n\n", decimalR(fsi["m.ReadDecimalLen"]))
+	b.WriteString("/-- the frame-header writers and a few composite readers: calls on the stream, in source order -/\ndef callSeqs : List (String × List String) := [\n")
+	var cs []string
+	for _, n := range []string{"m.WriteHeader", "m.WriteOneWayHeader", "m.WriteSecureHeader", "m.WriteIntBytes", "m.WriteShortBytes"} {
+		if fd, ok := fso[n]; ok {
+			cs = append(cs, fmt.Sprintf("  (%q, %s)", n[2:], callSeq(fd)))
+		}
+	}
+	for _, n := range []string{"m.ReadIntBytes", "m.ReadIntBytesLimit", "m.ReadShortBytes", "m.ReadDecimalArray", "m.ReadDecimalArrayInt", "m.ReadUnsignedInt", "m.ReadUnsignedShort", "m.ReadTextShortLength"} {
+		if fd, ok := fsi[n]; ok {
+			cs = append(cs, fmt.Sprintf("  (%q, %s)", n[2:], callSeq(fd)))
+		}
+	}
+	b.WriteString(strings.Join(cs, ",\n"))
 	b.WriteString("\n]\n\n")
 	b.WriteString("/-- how the primitive writers update `written` -/\ndef written : List (String × List String) := [\n")
 	var wr []string
